@@ -139,7 +139,7 @@ def _fill_contract(ctx, prog, rule):
     ok = bool(paths)
     for pa in paths:
         r = C.expr_of(pa, pa.ret)
-        w = LP.Walker(pa, [], contracts=[(r"common::check_buffer_boundaries$", c_cbb)]).run()
+        w = LP.Walker(pa, [], contracts=[(r"common::check_buffer_boundaries$", c_cbb), (LP.SLICE_GET_RX, LP.c_slice_get)]).run()
         if isinstance(r, tuple) and r[0] == "Result::Ok":
             w.prove("size <= len(buffer)", LP.add(w.L.len_lin("top:buffer"), w.L.lin("top:size"), -1))
         ok = ok and not w.failed
